@@ -249,6 +249,9 @@ pub struct World {
     /// kernel events since the current poll started (runaway-poll watchdog)
     pub events_in_poll: u64,
     pub max_events_in_poll: u64,
+    /// force the canonical schedule (FIFO ready queue, select! start 0, whole reads and
+    /// writes, no latency) whatever the scenario configures; used by paired replays
+    pub canonical: bool,
 }
 
 thread_local! {
@@ -305,6 +308,7 @@ pub fn install(tape: Tape, cfg: SimConfig) {
         max_spin: 0,
         events_in_poll: 0,
         max_events_in_poll: 0,
+        canonical: false,
     };
     WORLD.with(|w| *w.borrow_mut() = Some(world));
 }
@@ -360,7 +364,7 @@ pub fn chance(num: u32, den: u32) -> bool {
 /// used by the `select!` facade
 pub fn select_start(branches: u32) -> u32 {
     try_with(|w| {
-        if w.cfg.select_random {
+        if w.cfg.select_random && !w.canonical {
             let v = w.tape.choose(branches);
             if v != 0 {
                 *w.counters.entry("select_nonzero_start").or_insert(0) += 1;
@@ -564,7 +568,7 @@ pub fn step() -> bool {
         if n == 0 {
             return None;
         }
-        let idx = if n > 1 && w.cfg.sched_random {
+        let idx = if n > 1 && w.cfg.sched_random && !w.canonical {
             w.count("sched_choice");
             w.tape.choose(n as u32) as usize
         } else {
